@@ -327,6 +327,22 @@ def bootstrap_case(rng, hosts, unreachable):
             "meta": {"kind": "bootstrap", "hosts": list(hosts), "u1": list(unreachable), "u2": u2}}
 
 
+def failed_load_case(rng, hosts, full):
+    """a load that fails AFTER an earlier successful one: with an idle time-out of zero every call reconnects, so making every
+    bootstrap host unreachable makes the load fail; a full load has then forgotten everything, a named load has changed nothing"""
+    spec = {"brokers": {1: (b"b1", 9092), 2: (b"b2", 9093)},
+            "topics": {b"ta": [1, 2, -1], b"tb": [2]}, "logs": {}}
+    probe = lambda: [T("topics"), T("fetch_offsets", [[b"ta", b"tb"], T("latest")]),
+                     T("fetch_messages", [[fp(b"ta", 0, 0), fp(b"tb", 0, 0)]])]
+    failing = T("load_metadata_all") if full else T("load_metadata", [[b"tb"]])
+    ops = [T("client_new", [list(hosts)]), T("set_connection_idle_timeout", [0, 0]), T("load_metadata_all")] + probe()
+    ops += [{"op": failing, "unreachable": sorted(set(hosts))}]
+    ops += [{"op": T("topics"), "unreachable": []}] + probe()[1:]
+    ops += [T("load_metadata", [[b"ta"]])] + probe()
+    return {"cluster": spec, "ops": ops, "unreachable": [],
+            "meta": {"kind": "bootstrap", "hosts": list(hosts), "u1": [], "u2": sorted(set(hosts)), "idle0": True, "failed_load": "all" if full else "named"}}
+
+
 def gen(rng, tier):
     cases = []
     for pool in BOOT_POOLS:
@@ -339,6 +355,15 @@ def gen(rng, tier):
         n = rng.randint(2, 4)
         hosts = [rng.choice(BOOT_POOLS[0]) for _ in range(n)]
         cases.append(bootstrap_case(rng, hosts, [h for h in sorted(set(hosts)) if rng.random() < 0.5]))
+    for hosts in ([b"b1:9092"], [b"b1:9092", b"b2:9093"], [b"b2:9093", b"b1:9092"], [b"x1:1", b"b2:9093"]):
+        for full in (True, False):
+            c = failed_load_case(rng, hosts, full)
+            if b"x1:1" in hosts:
+                c["unreachable"] = [b"x1:1"]
+                for it in c["ops"]:
+                    if isinstance(it, dict) and it.get("unreachable") == []:
+                        it["unreachable"] = [b"x1:1"]
+            cases.append(c)
     nh = 1200 if tier == "quick" else 16000
     for k in range(nh):
         cases.append(history_case(rng, nops=1 + k % 8))
@@ -445,6 +470,8 @@ def oracle(case, recs, cl):
             connected = set()
         elif op.name in ("load_metadata_all", "load_metadata"):
             # metadata comes from the first bootstrap host that can be reached; NoHostReachable iff none can
+            if case["meta"].get("idle0"):
+                connected = set()       # idle time-out zero: every call connects anew
             first = None
             exp_conn = []
             for h in hosts:
